@@ -147,6 +147,12 @@ func (e *env) judge(c *cell, o observation) {
 		return
 	}
 
+	if hsize == c.sh.T {
+		r.Bucket("handler_size_equals_target", 1)
+	} else {
+		r.Bucket("handler_size_differs_from_target(target below the empty response + 13)", 1)
+	}
+
 	full := hsize + optLen(c.form, c.sh.OwnOPT)
 	rel := relClass(full, limit)
 	class := strings.Join([]string{fam, fmt.Sprint(c.path.cfg), advClass(c.form.Adv), c.form.Name,
